@@ -34,7 +34,7 @@ def scalar(kind: str):
         "int": values.int64,
         "uint": values.uint64,
         "double": values.double_with_inf,
-        "string": lambda: values.text(6),
+        "string": lambda: values.text(6) | st.sampled_from(["\u00e9", "e\u0301", "\u00c5", "\u212b", "\uac00", "\u1100\u1161", "x\u00e9", "e\u0301x", "\U0001d15e", "\u00f1o", "n\u0303o"]),
         "bytes": lambda: values.binary(6),
         "bool": st.booleans,
         "timestamp": values.timestamp_us,
@@ -114,7 +114,18 @@ def mutate(draw, kind: str, v: Any) -> Any:
             return -v  # the other zero
         return math.nextafter(v, draw(st.sampled_from([math.inf, -math.inf])))
     if kind == "string":
-        return v + draw(st.sampled_from(["", "a", "\U0001f431", "￿", "\0"])) if draw(st.booleans()) else v[:-1]
+        import unicodedata
+
+        k = draw(st.integers(0, 3))
+        if k == 0:
+            # a canonically equivalent spelling with other code points (composed / decomposed): a different string
+            base = v if any(ord(c) > 127 for c in v) else v + draw(st.sampled_from(["\u00e9", "e\u0301", "\u212b", "\u00c5", "\uac00", "\u1100\u1161", "\U0001d15e"]))
+            for form in ("NFD", "NFC"):
+                w = unicodedata.normalize(form, base)
+                if w != base:
+                    return w if draw(st.booleans()) or base == v else base
+            return base
+        return v + draw(st.sampled_from(["", "a", "\U0001f431", "￿", "\0"])) if k == 1 else v[:-1] if k == 2 else v + draw(st.sampled_from(["\u00e9", "e\u0301"]))
     if kind == "bytes":
         return v + draw(st.sampled_from([b"", b"\x00", b"\xff"])) if draw(st.booleans()) else v[:-1]
     if kind == "bool":
